@@ -57,6 +57,7 @@ def kind_of(component):
 GRID = [0, 0.25, 0.5, 1, 30, 100, 120, 250, 480, 500, 690, 720, 999.75, 1000, 1000.25, 1500, 2000, 3000, 5000, 10000,
         12000, 30000, 60000, 90000, 180000]
 POS = [g for g in GRID if g > 0]
+TINY = 2.0 ** -24          # 6e-8 ms, exactly representable; cases containing it are scaled by 2^24
 
 
 def rtime(rng, allow_zero=True, hi=240000):
@@ -154,9 +155,10 @@ def random_state(rng, component, action_stat):
     for name in type(s).model_fields:
         e = getattr(s, name)
         if isinstance(e, E.Cooldown):
-            e.time_left = rng.choice([-500.0, 0.0, 0.25, rtime(rng)])
+            # TINY / -TINY: a residue far below any tick, as float cooldown reductions leave behind (every comparison with 0 must be exact)
+            e.time_left = rng.choice([-500.0, 0.0, 0.25, TINY, -TINY, rtime(rng)])
         elif isinstance(e, E.Lasting):
-            e.time_left = rng.choice([-30.0, 0.0, 0.5, rtime(rng)])
+            e.time_left = rng.choice([-30.0, 0.0, 0.5, TINY, -TINY, rtime(rng)])
             e.assigned_duration = rtime(rng)
         elif isinstance(e, E.Consumable):
             e.stack = rng.randint(0, e.maximum_stack)
@@ -210,7 +212,7 @@ def scale_of(values) -> int:
         sc = max(sc, f.denominator)
         if abs(f) >= 2 ** 34:
             raise OffGrid("magnitude %r" % v)
-    if sc > 2 ** 16:
+    if sc > 2 ** 24:
         raise OffGrid("denominator %d" % sc)
     return sc
 
